@@ -609,6 +609,229 @@ def e2e(case):
     return obs, details
 
 
+# ---- end to end: the call life-cycle matrix ----------------------------------------------------------
+# all four cardinalities x {client already half-closed, client still sending} x {status consumed by
+# recv_trailing_metadata, at context exit, through the StreamTerminatedError upgrade in __aexit__ after
+# RST_STREAM / GOAWAY / connection loss} x details {None, known, unknown}.  Two ways to get there: the real server
+# (which resets the stream after the trailers when the client has not half-closed) and a scripted server peer
+# (trailers followed by RST_STREAM / GOAWAY / loss, for every client state).
+
+LC_MODES = ['trailing', 'exit', 'upgrade-send', 'upgrade-recv']
+
+
+def lc_must_finish(case):
+    """a scripted server that ends its side with plain trailers (no RST): a client that never half-closes would be
+    misusing the API (recv_trailing_metadata -> ProtocolError 'Outgoing stream was not ended'), so it finishes"""
+    return case['op'] == 'e2e-peer' and not case['half_closed'] and case.get('term') is None and \
+        case.get('layout') == 'full'
+
+
+def lc_valid(case):
+    cs = case['card'][0] == 'S'
+    if case['mode'] == 'upgrade-send' and (not cs or case['half_closed']):
+        return False            # nothing can be sent any more
+    if case.get('srv') == 'read-reply' and not cs and not case['half_closed']:
+        return False            # the handler would wait for a message that never comes
+    return True
+
+
+async def lc_client_body(s, case, got):
+    import asyncio
+    cs, ss = case['card'][0] == 'S', case['card'][1] == 'S'
+    got['stream'] = s
+    if case['half_closed']:
+        if cs:
+            await s.send_message(b'q')
+            await s.send_message(b'q2', end=True)
+        else:
+            await s.send_message(b'q', end=True)
+    elif cs:
+        await s.send_message(b'q')
+    else:
+        await s.send_request()
+    if case.get('sleep'):
+        await asyncio.sleep(case['sleep'])          # everything the server sent has arrived by then
+    mode = case['mode']
+    if case.get('finish') and not case['half_closed'] and mode != 'upgrade-send':
+        # the client goes on with its side of the protocol: the last message, half-close
+        await s.send_message(b'last', end=True)
+    if mode == 'trailing':
+        if ss:
+            async for r in s:
+                got['replies'].append(r)
+        else:
+            got['replies'].append(await s.recv_message())
+        await s.recv_trailing_metadata()
+    elif mode == 'upgrade-send':
+        for _ in range(3):
+            await s.send_message(b'more')
+            await asyncio.sleep(0.125)
+        if case.get('finish'):
+            await s.end()
+    elif mode == 'upgrade-recv':
+        got['replies'].append(await s.recv_message())
+    # mode == 'exit': the status is consumed by __aexit__
+
+
+def lc_method(channel, card):
+    from grpclib import client as C
+    cls = {'UU': C.UnaryUnaryMethod, 'US': C.UnaryStreamMethod, 'SU': C.StreamUnaryMethod,
+           'SS': C.StreamStreamMethod}[card]
+    return cls(channel, '/v.S/M', bytes, bytes)
+
+
+def lc_observe(o, got, log, extra):
+    from grpclib.exceptions import GRPCError
+    from grpclib.encoding.proto import _Unknown
+    obs = dict(extra, outcome=o[0], replies=len(got['replies']))
+    if o[0] == 'exc':
+        e = o[1]
+        obs['exc'] = type(e).__name__
+        if isinstance(e, GRPCError):
+            obs['status'] = e.status.value
+            obs['message'] = None if e.message is None else cpl(e.message)
+            obs['details'] = None if e.details is None else [
+                ('unknown', d._name) if isinstance(d, _Unknown)
+                else (type(d).DESCRIPTOR.full_name, d.SerializeToString(deterministic=True)) for d in e.details]
+    obs['codec_log'] = log
+    tm = getattr(got.get('stream'), 'trailing_metadata', None)
+    obs['tm'] = None if tm is None else list(tm.items())
+    return obs
+
+
+def e2e_lifecycle(case):
+    """real server <-> real client; the handler reports an error at a chosen point of the call"""
+    from grpclib.client import Channel
+    from grpclib.server import Server
+    from grpclib.const import Status
+    from grpclib.exceptions import GRPCError
+    _quiet()
+    st = Status(case['st'])
+    msg = None if case['msg'] is None else uncpl(case['msg'])
+    specs = case.get('details')
+    details = None if specs is None else [build_detail(s) for s in specs]
+    how = case.get('how', 'raise')
+    log = []
+    with vloop.session() as loop:
+        async def handler(stream):
+            if case.get('srv') == 'read-reply':
+                await stream.recv_message()
+                await stream.send_message(b'r')
+            if how == 'raise':
+                raise GRPCError(st, msg, details)
+            await stream.send_trailing_metadata(status=st, status_message=msg, status_details=details)
+        codec = recording_proto_codec(log)
+        server = Server([Service('v.S', {'M': (handler, case['card'])})], codec=RawCodec(), status_details_codec=codec)
+        channel = Channel(codec=RawCodec(), status_details_codec=codec)
+        sproto = server._protocol_factory()
+        cproto = channel._protocol_factory()
+        link = wire.Link(loop, cproto, sproto, make_cutter(case.get('cut')))
+        cproto.connection_made(link.ta)
+        sproto.connection_made(link.tb)
+        channel._protocol = cproto
+        m = lc_method(channel, case['card'])
+        got = {'replies': []}
+
+        async def call():
+            async with m.open() as s:
+                await lc_client_body(s, case, got)
+        t = loop.create_task(call())
+        quiet = loop.run_quiet(20)
+        o = vloop.outcome(t)
+        obs = lc_observe(o, got, log, {'quiet': quiet, 'conn_alive': not link.ta.lost and not link.tb.lost})
+    return obs, details
+
+
+def e2e_peer(case):
+    """scripted server peer: (headers, message,) trailers, then nothing / RST_STREAM / GOAWAY / connection loss.  The
+    trailers are built with the real server-side functions (encode_grpc_message, the codec, encode_bin_value)."""
+    from grpclib.const import Status
+    from grpclib.metadata import encode_grpc_message, encode_bin_value
+    from h2.events import RequestReceived
+    _quiet()
+    st = Status(case['st'])
+    msg = None if case['msg'] is None else uncpl(case['msg'])
+    specs = case.get('details')
+    details = None if specs is None else [build_detail(s) for s in specs]
+    log = []
+    with vloop.session() as loop:
+        codec = recording_proto_codec(log)
+        ce = wire.ClientEnd(loop, status_details_codec=codec)
+        m = lc_method(ce.channel, case['card'])
+        got = {'replies': []}
+
+        async def call():
+            async with m.open() as s:
+                await lc_client_body(s, case, got)
+        t = loop.create_task(call())
+        loop.run_quiet(0.5)
+        sid = [e for e in ce.peer.take_events() if isinstance(e, RequestReceived)][0].stream_id
+        trailers = [('grpc-status', str(st.value))]
+        if msg is not None:
+            trailers.append(('grpc-message', encode_grpc_message(msg)))
+        if details is not None:
+            trailers.append(('grpc-status-details-bin', encode_bin_value(codec.encode(st, msg, details)).decode('ascii')))
+        if case.get('layout') == 'only':
+            ce.peer.headers(sid, P.RESP_HEADERS + trailers, end_stream=True)
+        else:
+            ce.peer.headers(sid, P.RESP_HEADERS)
+            ce.peer.data(sid, P.grpc_frame(b'r'))
+            ce.peer.headers(sid, trailers, end_stream=True)
+        term = case.get('term')
+        if term == 'rst':
+            # a raw RST_STREAM(NO_ERROR) frame: h2's API refuses to reset a stream it considers closed
+            ce.peer.raw(P.frame_bytes(0x3, 0, sid, b'\x00\x00\x00\x00'))
+        elif term == 'goaway':
+            ce.peer.goaway()
+        elif term == 'lost':
+            ce.transport.lose()
+        quiet = loop.run_quiet(20)
+        o = vloop.outcome(t)
+        obs = lc_observe(o, got, log, {'quiet': quiet})
+    return obs, details
+
+
+def gen_lifecycle_cases(rng, full):
+    """the matrix; `full` enumerates every cell, otherwise a PRNG half of it (every cell class still appears)"""
+    members = [s.value for s in status_members() if s.value != 0]
+    det_classes = [None, 'known', 'unknown']
+
+    def fill(c, dc):
+        r = rng.random()
+        c['st'] = rng.choice(members)
+        c['msg'] = None if r < 0.1 else [] if r < 0.15 else _scalars(gen_msg(rng))[:20]
+        if dc is None:
+            c['details'] = None
+        else:
+            kinds = [k for k in DETAIL_KINDS if (k == 'unknown') == (dc == 'unknown')]
+            c['details'] = [[rng.choice(kinds), _scalars(gen_msg(rng))[:8], rng.choice([0, 1, 5, 2 ** 31])]
+                            for _ in range(rng.choice([1, 2]))]
+            if dc == 'unknown' and rng.random() < 0.5:
+                c['details'].append(['Help', [104], 1])
+        return c
+    out = []
+    for card in ('UU', 'US', 'SU', 'SS'):
+        for hc in (True, False):
+            for mode in LC_MODES:
+                for sleep in (0, 2):
+                    for dc in det_classes:
+                        for srv in ('early', 'read-reply'):
+                            c = {'op': 'e2e-lc', 'card': card, 'half_closed': hc, 'mode': mode, 'sleep': sleep,
+                                 'srv': srv, 'how': rng.choice(['raise', 'raise', 'send']),
+                                 'cut': rng.choice([None, rng.randint(1, 10 ** 6)])}
+                            c['finish'] = not hc and rng.random() < 0.3
+                            if lc_valid(c) and (full or rng.random() < 0.5):
+                                out.append(fill(c, dc))
+                        for layout in ('only', 'full'):
+                            for term in (None, 'rst', 'goaway', 'lost'):
+                                c = {'op': 'e2e-peer', 'card': card, 'half_closed': hc, 'mode': mode, 'sleep': sleep,
+                                     'layout': layout, 'term': term}
+                                c['finish'] = lc_must_finish(c) or (not hc and rng.random() < 0.3)
+                                if lc_valid(c) and (full or rng.random() < 0.5):
+                                    out.append(fill(c, dc))
+    return out
+
+
 def oracle_e2e(case, obs, details):
     """the property statement itself: the client's GRPCError carries the status, message and details the handler reported"""
     st = case['st']
@@ -620,7 +843,8 @@ def oracle_e2e(case, obs, details):
     if obs['outcome'] == 'pending':
         return 'client call never completed', 'hang'
     if obs['outcome'] != 'exc' or obs.get('exc') != 'GRPCError':
-        kind = 'oversize-status-lost' if case.get('oversize') else 'no-grpc-error'
+        kind = 'oversize-status-lost' if case.get('oversize') else \
+            'status-swallowed' if obs['outcome'] == 'ok' else 'no-grpc-error'
         return 'client got %s instead of the GRPCError the handler reported' % (obs.get('exc') or obs['outcome']), kind
     if obs['status'] != st:
         return 'status changed: %r -> %r' % (st, obs['status']), 'status-changed'
@@ -644,7 +868,8 @@ def check_e2e(ctx, res, cases):
     lines = []
     obs_all = []
     for case in cases:
-        obs, details = e2e(case)
+        runner = {'e2e-lc': e2e_lifecycle, 'e2e-peer': e2e_peer}.get(case.get('op'), e2e)
+        obs, details = runner(case)
         obs_all.append((obs, details))
         enc = [b for k, b in obs['codec_log'] if k == 'encode']
         # the model is asked what the client must see given the bytes the server's codec produced
@@ -660,12 +885,22 @@ def check_e2e(ctx, res, cases):
         obs, details = obs_all[i]
         res.evaluations += 1
         kinds = tuple(sorted(set(s[0] for s in (case.get('details') or []))))
-        res.count('e2e:%s:%s' % (case.get('how', 'raise'), 'details' if case.get('details') else
-                                 ('nodetails' if case.get('details') is None else 'emptydetails')))
-        res.signatures.add(('e2e', case['st'], case.get('how'), msg_class(case['msg']), kinds))
+        dclass = 'details' if case.get('details') else ('nodetails' if case.get('details') is None else 'emptydetails')
+        if case.get('op') in ('e2e-lc', 'e2e-peer'):
+            res.count('%s:%s:%s:%s:%s' % (case['op'], case['card'], 'half-closed' if case['half_closed'] else 'sending',
+                                          case['mode'], dclass))
+            res.count('%s:surfaced-as:%s' % (case['op'], obs.get('exc') or obs['outcome']))
+            res.signatures.add((case['op'], case['card'], case['half_closed'], case['mode'], case.get('sleep'),
+                                case.get('srv'), case.get('layout'), case.get('term'), kinds))
+        else:
+            res.count('e2e:%s:%s' % (case.get('how', 'raise'), dclass))
+            res.signatures.add(('e2e', case['st'], case.get('how'), msg_class(case['msg']), kinds))
         res.sample({'op': 'e2e', 'status': case['st'], 'message': case['msg'], 'details': case.get('details'),
                     'client': {k: v for k, v in obs.items() if k not in ('codec_log',)}}, limit=8)
-        if model is not None and not case.get('oversize'):
+        lifecycle_silent = case.get('op') in ('e2e-lc', 'e2e-peer') and obs.get('exc') != 'GRPCError'
+        # (in a life-cycle cell the trailers model can only be compared when the client consulted the trailers at all;
+        # whether it does is the business of the call life-cycle (C02/C04) -- the oracle below still judges the cell)
+        if model is not None and not case.get('oversize') and not lifecycle_silent:
             res.traces += 1
             m = parse_model_status(model2[i])
             dec = [b for k, b in obs['codec_log'] if k == 'decode']
@@ -679,7 +914,10 @@ def check_e2e(ctx, res, cases):
                 res.disagreements.append({'case': case, 'model': m, 'impl': impl})
         bad = oracle_e2e(case, obs, details)
         if bad:
-            res.oracle_failures.append({'case': case, 'what': bad[0], 'signature': {'op': 'e2e', 'kind': bad[1]},
+            sig = {'op': case.get('op', 'e2e'), 'kind': bad[1]}
+            if sig['op'] != 'e2e':
+                sig.update(mode=case['mode'], term=case.get('term') or 'none', arrived=bool(case.get('sleep')))
+            res.oracle_failures.append({'case': case, 'what': bad[0], 'signature': sig,
                                         'observed': {k: v for k, v in obs.items() if k != 'codec_log'}})
 
 
@@ -980,7 +1218,13 @@ def run(ctx):
                 '(c) real server in front of a scripted peer: every Status member x {raise, send, send-after-message} x '
                 'message classes; (d) real client behind a scripted server: fixed malformed grpc-message byte strings x 2 '
                 'layouts + PRNG; (e) real client <-> real server with re-cut delivery and ProtoStatusDetailsCodec: every '
-                'Status member x {raise, send} and PRNG (message, list of google.rpc details of known / unknown types). '
+                'Status member x {raise, send} and PRNG (message, list of google.rpc details of known / unknown types); (f) the call '
+                'life-cycle matrix: 4 cardinalities x {client half-closed, still sending} x {status consumed by '
+                'recv_trailing_metadata, at context exit, by the StreamTerminatedError upgrade in __aexit__ while sending / '
+                'receiving} x {ops racing with / after arrival} x details {None, known, unknown}, once with the real server '
+                '(error before / after a reply; RST after the trailers when the client has not half-closed) and once with a '
+                'scripted server (trailers-only / full response, then nothing / RST_STREAM / GOAWAY / connection loss); '
+                'quick = PRNG half of the cells, thorough = all. '
                 'distinct = distinct (op, status, how, message class, detail kinds / header shape) signature')
     encs, decs, u8ds, sts, trs, rcvs, e2es = [], [], [], [], [], [], []
     for c in ctx.corpus() + [h for h in getattr(ctx, 'hints', []) if isinstance(h, dict)]:
@@ -998,7 +1242,7 @@ def run(ctx):
             trs.append(c)
         elif op == 'rcv':
             rcvs.append(c)
-        elif op == 'e2e':
+        elif op in ('e2e', 'e2e-lc', 'e2e-peer'):
             e2es.append(c)
     n = ctx.n(10000, 150000)
     # (a)
@@ -1046,6 +1290,7 @@ def run(ctx):
             e2es.append(gen_e2e_case(rng, s.value, how))
     for _ in range(ctx.n(1500, 20000)):
         e2es.append(gen_e2e_case(rng))
+    e2es += gen_lifecycle_cases(rng, ctx.tier == 'thorough' or ctx.search)
     e2es += [expand(c) for c in OVERSIZE]
     # witness of C14_status_roundtrip_all_refuted (OK, 'x', None): the model says the client keeps nothing
     e2es.append({'op': 'e2e', 'st': 0, 'msg': [120], 'details': None, 'how': 'send-after-message'})
@@ -1069,6 +1314,6 @@ def replay(ctx, case):
         check_trailers(ctx, res, [c])
     elif op == 'rcv':
         check_receive(ctx, res, [c])
-    elif op == 'e2e':
+    elif op in ('e2e', 'e2e-lc', 'e2e-peer'):
         check_e2e(ctx, res, [c])
     return res
